@@ -5,6 +5,7 @@ CONSTANTS
   MaxOps = 4
   Deviations = {}
   EmitBehaviours = FALSE
+  Focus = FALSE
 INIT MCInit
 NEXT MCNext
 VIEW View
